@@ -5,6 +5,7 @@ import WebpVerif.Lemmas.BitWriter
 import WebpVerif.Lemmas.BitReader
 import WebpVerif.Lemmas.EncLoop
 import WebpVerif.Lemmas.EncMain
+import WebpVerif.Lemmas.StreamCong
 
 /-!
 # C04 — the lossless encoder round-trips every image exactly
@@ -215,6 +216,18 @@ theorem encode_roundtrip (data : List Nat) (w h color : Nat) (pred : Bool)
     ∃ out, encodeFrame data w h color pred = some out ∧
       VP8LP.decode out.toList = some (w, h, (expand color data).map EncRT.pack) :=
   EncRT.encode_decodes data w h color pred hw.1 hw.2 hh.1 hh.2 hc hd hlen
+
+/-- **… and through the crate's own entropy layer.**  The same round trip with the decoder that uses
+    the models of this crate's `read_huffman_code` and `HuffmanTree` inside the stream structure
+    (`LStream.decodeCrate`, compared with the real decoder on every run; `C01.entropy_layer_in_stream`):
+    every image the encoder writes is read back exactly -/
+theorem encode_roundtrip_crate_entropy (data : List Nat) (w h color : Nat) (pred : Bool)
+    (hw : 1 ≤ w ∧ w ≤ 16384) (hh : 1 ≤ h ∧ h ≤ 16384) (hc : color ≤ 3) (hd : ∀ b ∈ data, b < 256)
+    (hlen : data.length = w * h * EncRT.bytesPer color) :
+    ∃ out, encodeFrame data w h color pred = some out ∧
+      LStream.decodeCrate out.toList = some (w, h, (expand color data).map EncRT.pack) := by
+  obtain ⟨out, h1, h2⟩ := encode_roundtrip data w h color pred hw hh hc hd hlen
+  exact ⟨out, h1, by rw [LStreamProof.decodeCrate_is_spec]; exact h2⟩
 
 /-- the pixel value the theorem speaks of is the ARGB number of the specification -/
 theorem pack_is_argb (r g b a : Nat) : EncRT.pack [r, g, b, a] = VP8L.mk a r g b := rfl
